@@ -233,6 +233,14 @@ func valueOf(ver, typ, key, tok string, seed int64) json.RawMessage {
 	case "redacts":
 		return pick(qs(idOf("red1", ver)), qs(idOf("red2", ver)), qs(idOf("red3", ver)))
 	}
+	switch key {
+	case "body":
+		// valid but unusual spellings: escaped solidus, \u escapes (also of U+2028 and a surrogate pair), HTML characters
+		return pick(`"a\/b \u00e9\u2028 <b>&amp;<\/b> \ud83d\ude00"`, `"other \u003c body"`, `"forged \/ body"`)
+	case "topic":
+		// an object with white space and keys out of order, also in the nested object
+		return pick(`{ "z" : 1, "a" : [ 1 , 2 ] ,"m":{"y":null,"b":true}}`, `{"z":2}`, `{"z":3}`)
+	}
 	return q(fmt.Sprintf("%s-%s-%d", key, tok, seed))
 }
 
@@ -421,7 +429,7 @@ type built struct {
 
 func listOf(ver, tok string) []string {
 	switch tok {
-	case "p0", "a0":
+	case "p0", "a0", "pn", "an":
 		return []string{}
 	case "p1":
 		return []string{idOf("prev1", ver)}
@@ -431,8 +439,20 @@ func listOf(ver, tok string) []string {
 		return []string{idOf("auth1", ver)}
 	case "a2":
 		return []string{idOf("auth1", ver), idOf("auth2", ver)}
+	case "pd": // the same event referenced twice
+		return []string{idOf("prev1", ver), idOf("prev1", ver)}
+	case "ad":
+		return []string{idOf("auth1", ver), idOf("auth1", ver)}
 	}
 	panic("harness: unknown list token " + tok)
+}
+
+// strs reads a prev / auth list of a proto-event (absent = no references).
+func strs(x interface{}) []string {
+	if x == nil {
+		return []string{}
+	}
+	return x.([]string)
 }
 
 // protoOf realises the abstract proto-event.
@@ -445,7 +465,15 @@ func protoOf(ver string, p *protoRec, seed int64) built {
 		AuthEvents: listOf(ver, p.Auth),
 		Content:    spec.RawJSON(contentOf(ver, p, seed)),
 	}
+	if p.Prev == "pn" {
+		pe.PrevEvents = nil // absent in the proto-event: Build must write an empty list
+	}
+	if p.Auth == "an" {
+		pe.AuthEvents = nil
+	}
 	switch p.Depth {
+	case "d0":
+		pe.Depth = 0
 	case "d1":
 		pe.Depth = 1
 	case "d2":
@@ -459,6 +487,9 @@ func protoOf(ver string, p *protoRec, seed int64) built {
 	case "none":
 	case "empty":
 		s := ""
+		pe.StateKey = &s
+	case "self":
+		s := pe.SenderID
 		pe.StateKey = &s
 	case "user":
 		s := "@bob:" + hs2
@@ -481,6 +512,8 @@ func protoOf(ver string, p *protoRec, seed int64) built {
 	}
 	switch p.Unsigned {
 	case "none":
+	case "u0":
+		pe.Unsigned = spec.RawJSON(`{}`)
 	case "u1":
 		pe.Unsigned = spec.RawJSON(`{"age":1234}`)
 	case "u2":
@@ -494,6 +527,8 @@ func protoOf(ver string, p *protoRec, seed int64) built {
 		pe.RoomID = out.room.id
 	}
 	switch p.TS {
+	case "t0":
+		out.now = time.UnixMilli(0)
 	case "t1":
 		out.now = time.UnixMilli(tsBase)
 	case "t2":
